@@ -830,6 +830,28 @@ func checkDecoderPanics(c *km.Ctx, s *km.Sem) {
 			st := c.F.At(cs.Instr)
 			a := km.CallArgs(cs.Instr.(ssa.CallInstruction).Common())
 			ok := st.All(func(k km.Conj) bool { return lenAtLeast(k, a[1], 1) })
+			if !ok {
+				// the call may sit in a helper of checkAuth that is itself only called under the guard: the guard on
+				// the request's verified chains is then required on every path into the helper
+				if _, path, isFP := km.FieldPath(km.Unwrap(a[1])); isFP && strings.HasSuffix(path, "TLS.VerifiedChains") {
+					chains := km.Prim{Name: "len(r.TLS.VerifiedChains) >= 1", Rel: func(f km.Fact, _ func(ssa.Value) ssa.Value) bool {
+						cl, isCall := f.X.(*ssa.Call)
+						if !isCall {
+							return false
+						}
+						if b, isB := cl.Common().Value.(*ssa.Builtin); !isB || b.Name() != "len" {
+							return false
+						}
+						root, p2, ok2 := km.FieldPath(km.Unwrap(cl.Common().Args[0]))
+						if !ok2 || !strings.HasSuffix(p2, "TLS.VerifiedChains") || km.NamedTypeOf(root.Type()) != "net/http.Request" {
+							return false
+						}
+						i, isC := km.ConstInt(f.Y)
+						return isC && ((f.Op == token.GTR && i >= 0) || (f.Op == token.GEQ && i >= 1) || (f.Op == token.NEQ && i == 0))
+					}}
+					ok, _ = s.HoldsOnAllPaths(cs.Instr, allPrims(s, chains), map[*ssa.Function]bool{}, 3)
+				}
+			}
 			r.Add("R-C10-4", km.FuncName(cs.Caller), "caller guard: non-empty VerifiedChains", posOf(c, cs.Instr), "len(VerifiedChains) >= 1 at every call of getUsernameIfIPRestricted", sprintf("%v", ok), ok)
 		}
 	}
